@@ -541,3 +541,12 @@ LEVEL_NOTE = ("Trusted: Coq kernel+VM; translator; Spec/Zone.v, Spec/NativeDT.v 
               "classical reals (ClassicalDedekindReals.sig_forall_dec, sig_not_dec, functional_extensionality_dep, Classical_Prop.classic) through Flocq. The statement's quantifier stops at 10^9 s; the "
               "theorems hold up to 2^33 s (8.59e9 s), which is sharp.")
 TECHNIQUE = "Coq proof (lia/nia over translated add_duration, induction over tz tables, Flocq real-number semantics of SpecFloat for the float route) + differential correspondence"
+
+
+# ---- model side tied to /repo by translation + proof (appended) ----
+_GLUE_NEW = ("the hand-written model coq/Model/TzConvert.v is PROVED equal (model_is_code_* theorems) to the machine translation of pendulum's own code, coq/Gen/TzGlue.v, translated from /repo's src/pendulum/tz/timezone.py and src/pendulum/datetime.py on every run (tools/vlib/gens/g15_tz_glue.py; VERIF_REPO honoured): Timezone.convert (naive and aware branch), Timezone.datetime, FixedTimezone.convert / utcoffset / fromutc / datetime, DateTime.create, in_timezone, in_tz, astimezone, add (fixed-unit, naive and calendar branches), int_timestamp. A semantic change of one of these functions changes the generated definition and breaks a proof (not only a source pin). By hand in that translation: the object model and native primitives of coq/Model/TzGlueObj.v (a datetime object = wall value + fold + tzinfo, its CLASS is not modelled; ZoneInfo.utcoffset / fromutc, datetime + timedelta, the datetime constructor, replace(fold=/tzinfo=), utcfromtimestamp - each tied to CPython's source by a spec_is_stdlib_* theorem of C02 / C11), the dispatch of tz.utcoffset / fromutc / convert on the class of tz, native astimezone = tz.fromutc((self - utcoffset).replace(tzinfo=tz)); recognised rewrites: cast(T, e) -> e, pendulum._safe_timezone(x) -> x for an x that already is a Timezone/FixedTimezone (strings, numbers, foreign tzinfo objects, 'local' are out of scope of the translation), cls(...)/datetime.datetime(...) -> the native constructor, any([..]) -> bool(.. or ..). Assumption: `dt + timedelta` inside Timezone.convert is the native addition (dt a native datetime, as in DateTime.create; a naive pendulum DateTime in a gap would run DateTime.__add__ instead). STILL hand-written + pinned only: pendulum.from_timestamp (from_timestamp_int), DateTime.instance, set / on / at / replace, _safe_timezone itself, DateTime.__add__/__sub__/_add_timedelta_, the naive / local-time paths; the add theorems for the naive and calendar branches carry the hypothesis that add_duration's result lies in years 1..9999 (proved for the fixed-unit branch)")
+TRUSTED = [t for t in TRUSTED] + [_GLUE_NEW]
+LEVEL_NOTE = (LEVEL_NOTE + " Model/TzConvert.v is no longer tied to /repo by pins and correspondence only: Gen/TzGlue.v is the translation of "
+              "pendulum's timezone glue from /repo on every run and the model_is_code_* theorems prove the hand model equal to it "
+              "(native operations as primitives tied to CPython by the spec_is_stdlib_* theorems; from_timestamp, instance, set/on/at/replace "
+              "remain hand-written + pinned).")
